@@ -22,7 +22,24 @@ class CoopSelector:
         if timeout is None or timeout > 0:
             detsched.SCHED.wait_until(lambda: len(lp._ready) > 0, timeout, 'loop.select')
         else:
-            detsched.SCHED.yield_point('loop.poll')
+            s = detsched.SCHED
+            me = s.me()
+            if getattr(s, 'poll_timers', False) and lp._scheduled and me is not None and s.current is me and not s.aborting:
+                # Callbacks are queued and a timer is pending: in real time the clock may reach that timer during this
+                # very iteration, so that the timer's callback runs right after the queued ones (a time-out racing with
+                # the notification that is already on its way).  The poll is a scheduling point at which the loop
+                # thread stays runnable but offers the timer's due time to the scheduler's early-firing choice.
+                me.pred = None
+                me.why = 'loop.poll'
+                me.timed_out = False
+                me.deadline = lp._scheduled[0]._when
+                try:
+                    s._pick_and_switch(me)
+                finally:
+                    me.deadline = None
+                    me.timed_out = False
+            else:
+                s.yield_point('loop.poll')
         return self._real.select(0)
 
     def __getattr__(self, k):
